@@ -199,6 +199,10 @@ func (x *Exec) nextOp(fr *Frame, st *State, in *ssa.Next) *Val {
 		Implies(And(Ge(b0, IntLit(0x80)), Eq(w, IntLit(1))), Eq(c, IntLit(0xFFFD))),
 		Implies(Not(And(Eq(c, IntLit(0xFFFD)), Eq(w, IntLit(1)))), Eq(runeLenTerm(c), w)),
 		Not(And(Le(IntLit(0xD800), c), Le(c, IntLit(0xDFFF)))),
+		// the bytes after the first one of a multi-byte rune are continuation bytes
+		Implies(Gt(w, IntLit(1)), Ge(strAt(s, Add(pos, IntLit(1))), IntLit(0x80))),
+		Implies(Gt(w, IntLit(2)), Ge(strAt(s, Add(pos, IntLit(2))), IntLit(0x80))),
+		Implies(Gt(w, IntLit(3)), Ge(strAt(s, Add(pos, IntLit(3))), IntLit(0x80))),
 		// the forward decoding reaches the end exactly at the start of the last rune
 		Eq(Eq(Add(pos, w), ln), Eq(pos, Sub(ln, last))),
 		And(Le(IntLit(1), last), Le(last, IntLit(4)), Le(last, ln)),
